@@ -694,6 +694,12 @@ def urljoin(base_url, url, allow_fragments=True):
                 allow_fragments=allow_fragments
             )
 
+    if not allow_fragments and url.startswith('#'):
+        # A reference to a part of the base document itself. Without
+        # fragment handling, urllib would take it for a relative path and
+        # replace the last path segment of the base with it.
+        return urllib.parse.urldefrag(base_url)[0] + url
+
     return urllib.parse.urljoin(
         base_url, url, allow_fragments=allow_fragments)
 
